@@ -256,7 +256,11 @@ func VerifC19MergeCloseAfterEnd() {
 // a streaming node with two stream branches, each reading one chunk; the caller stops early
 func VerifC19TwoBranches() {
 	ctx := context.Background()
-	vcfg("preempt", vtier())
+	if vtier() == 0 {
+		vcfg("preempt", 0)
+	} else {
+		vcfg("delaybound", 1) // one pre-emption does not finish within the budget for this shape (> 900 k paths)
+	}
 	vcfg("selectfirst", 1)
 	pa := &c19Prod{key: "a", k: 4}
 	g := NewGraph[map[string]any, map[string]any]()
